@@ -110,6 +110,12 @@ def gen_dataset(rng, target="binary", n=None, kinds=None, with_dev=None):
             ordinal.append(name); values_orders[name] = list(extra)
         else:
             qualitative.append(name)
+            cats_seen = sorted({v for v in vals if v is not None}, key=str)
+            if cats_seen and all(isinstance(v, str) for v in cats_seen) and rng.random() < 0.25:
+                # a non-ordinal qualitative feature may come with a values_orders entry (its known values, in any order)
+                known = cats_seen[:]
+                rng.shuffle(known)
+                values_orders[name] = known
     # target driven by the first feature through a coarse step function (exact ties on purpose)
     f0 = list(cols)[0]
     kind0 = gens[f0][0]
